@@ -580,6 +580,73 @@ fn redefinition_check(ctx: &Ctx) {
     }
 }
 
+/// the library file appears between two attempts on one interpreter (healthy or faulty in any way): the second attempt
+/// must give what the same import gives on a fresh interpreter
+fn changed_file_check(ctx: &Ctx) {
+    if ctx.skip_sub("file-appears-between-attempts") || ctx.replay.is_some() {
+        return;
+    }
+    let mut reps = vec![];
+    let one = |st: Status| Graph { n: 1, edges: vec![vec![]], status: vec![st], multi_decl: false, wrap: 0 };
+    for first in FILE_STATUSES {
+        for second in FILE_STATUSES {
+            // only a library that was *not found* at the first attempt: a definition that was read once may be kept in
+            // the factory cache (whether a changed file is read again is not something the property speaks about), but a
+            // library that was never found has no definition to keep
+            if first == second || first != Status::Missing {
+                continue;
+            }
+            let (g1, g2) = (one(first), one(second));
+            let mut rep = Report::new(format!("file appears between attempts: g/n0.sld {:?}, (import (g n0)), file becomes {:?}, (import (g n0))", first, second));
+            rep.nontrivial = true;
+            let (g1c, g2c) = (g1.clone(), g2.clone());
+            let classes: Vec<String> = sut::in_thread(move || {
+                let d = make_dir(&g1c);
+                let attempt = |s: &mut Session| -> String {
+                    ruschm::verif_hooks::arm(100_000, 64, 10_000);
+                    let it = &mut s.it;
+                    let o = guarded(|| it.eval("(import (g n0))".chars()));
+                    ruschm::verif_hooks::disarm();
+                    match o {
+                        Err((site, msg)) => format!("PANIC {}", sut::panic_sig(&site, &msg)),
+                        Ok(Ok(_)) => "ok".to_string(),
+                        Ok(Err(e)) => class_of(&sut::err_info(&e).tag),
+                    }
+                };
+                let mut s = Session::bare().unwrap();
+                s.it.program_directory = Some(d.clone());
+                let c1 = attempt(&mut s);
+                let file = d.join("g").join("n0.sld");
+                let _ = std::fs::remove_file(&file);
+                if let Some(b) = file_bytes(&g2c, 0) {
+                    std::fs::write(&file, b).unwrap();
+                }
+                let c2 = attempt(&mut s);
+                let mut fresh = Session::bare().unwrap();
+                fresh.it.program_directory = Some(d.clone());
+                let cf = attempt(&mut fresh);
+                let _ = std::fs::remove_dir_all(&d);
+                vec![c1, c2, cf]
+            });
+            rep.note = format!("first attempt {}, second attempt {}, fresh interpreter {}", classes[0], classes[1], classes[2]);
+            let acc1 = acceptable(&g1, 0);
+            if classes[0] == "ok" || !acc1.contains(&classes[0].as_str()) {
+                rep.fail(format!("import-wrong-error:{}", classes[0]), format!("first attempt gave {}, the graph admits {:?}", classes[0], acc1));
+            } else if classes[1] != classes[2] {
+                rep.fail(
+                    "import-outcome-depends-on-an-earlier-attempt:file-appeared",
+                    format!("after the file changed the import gave {} on the interpreter that had failed before and {} on a fresh one", classes[1], classes[2]),
+                );
+            }
+            reps.push(rep);
+        }
+    }
+    for r in reps {
+        let rr = r.clone();
+        ctx.texts("file-appears-between-attempts", &[r.key.clone()], move |_| rr.clone());
+    }
+}
+
 pub fn run(ctx: &Ctx) {
     ctx.set_rule(
         "every directed graph (self-loops allowed) on 1-2 libraries (thorough: 3, strided) x every assignment of node \
@@ -592,11 +659,12 @@ pub fn run(ctx: &Ctx) {
          reachable; every attempt equals the same import on a fresh interpreter; every attempt terminates (step and depth budget of the import hook: 100 000 evaluation steps, 64 nested imports); \
          a library redefined after it was imported (through append_lib_loader or register_library_factory) is judged by \
          the new graph; libraries are located relative to the program directory (eval_file from another working directory with decoys; two program files in different directories run on \
-         one interpreter). \
+         one interpreter); a library file that appears (healthy or with any of the faults) after an attempt that did not find it is judged like the same import on a fresh interpreter. \
          Non-trivial = >= 2 libraries with a shared dependency or a cycle, or a history whose first attempt fails.",
     );
     location_check(ctx);
     redefinition_check(ctx);
+    changed_file_check(ctx);
     for (files, statuses, label) in [(true, &FILE_STATUSES[..], "files"), (false, &SOURCE_STATUSES[..], "registered")] {
         for n in 1..=ctx.tier.pick(2, 3) {
             let total = graph_count(n, statuses.len());
